@@ -382,6 +382,35 @@ def install(eng):
     m(r'^<.* as (std::iter::|core::iter::)?Iterator>::(cloned|copied)$', lambda e, a, c: ClonedIter(a[0]), fallback=True)
     m(r'^<(std::iter::|core::iter::)?(adapters::)?(\w+::)?(Cloned|Copied) as (std::iter::|core::iter::)?Iterator>::next$', lambda e, a, c: m_gen_next(e, a, c))
 
+    class FlattenIter:
+        """Iterator::flatten over an iterator of Options (or references to Options)"""
+        def __init__(self, it):
+            self.it = it
+
+        def iter_next(self, eng, fr):
+            n = 0
+            while True:
+                v = it_next(eng, self.it, fr)
+                if v is None:
+                    return None
+                o = v
+                while isinstance(o, Ref):
+                    o = o.cell.get(eng)
+                if not isinstance(o, EnumV) or ty_head(o.ty) != 'Option':
+                    raise Unsupported('flatten over ' + type(o).__name__)
+                if variant_is(eng, o, 1):
+                    payload0(eng, o, 'Some')
+                    cell = o.payload['Some'][0]
+                    return Ref(cell) if isinstance(v, Ref) else cell.get(eng)
+                n += 1
+                if n > max(4, getattr(eng, 'loop_bound', 64)):
+                    raise PathEnd('unwind', 'flatten')
+
+        def copy_value(self, eng):
+            return self
+    m(r'^<.* as (std::iter::|core::iter::)?Iterator>::flatten$', lambda e, a, c: FlattenIter(a[0]), fallback=True)
+    m(r'^<(std::iter::|core::iter::)?(adapters::)?(\w+::)?Flatten as (std::iter::|core::iter::)?Iterator>::next$', lambda e, a, c: m_gen_next(e, a, c))
+
     def m_fold(eng, args, ctx):
         it, acc, f = args
         n = 0
